@@ -28,10 +28,11 @@ meta = {"name": name, "property": pid, "checks_run": checks, "confirmed": {}}
 need_cc = "fixed_math.cc" in open(os.path.join(dst, "demo.cc")).read()
 build = "g++ -std=c++17 -I%s/fixed_lib/include -I%s %s/demo.cc -o %s/demo" % (wt, wt, dst, wt)
 def demo():
+    shutil.copy(os.path.join(dst, "demo.cc"), os.path.join(wt, "demo.cc"))   # some demos rebuild themselves with another compiler
     b = sh(build)
     if b.returncode != 0:
         return "build failed: " + b.stdout[-400:]
-    q = sh("%s/demo" % wt, timeout=600)
+    q = sh("FIXEDMATH_ROOT=%s %s/demo" % (wt, wt), timeout=600)
     return q.returncode
 meta["confirmed"]["demo_exit_unchanged"] = demo()
 a = sh("git -C %s apply %s/patch.diff" % (wt, dst))
